@@ -189,3 +189,6 @@ Proof.
   - split; [repeat constructor; vm_compute; discriminate|vm_compute; reflexivity].
   - eexists. split; [vm_compute; reflexivity|]. split; vm_compute; reflexivity.
 Qed.
+
+Definition roundtrip_example := conj codecK_ok (conj c_ok_wf c_ok_saved).
+Definition roundtrip_rec_example := conj codecT_ok (conj treeT_ok treeT_saved).
